@@ -282,3 +282,55 @@ Proof.
     unfold level. rewrite (nth_error_nth _ _ 0 Oi), (nth_error_nth _ _ 0 Oj).
     apply (Hp i j ri rj oi oj Ei Ej Oi Oj). apply (adj_db_crossing rs i j ri rj Ei Ej Hne). exact Hadj.
 Qed.
+
+(* ---------------------------------------------------------------- consequences *)
+Lemma coef_strict : forall o o' l, (0 < l)%Z -> o' < o -> (coef o l < coef o' l)%Z.
+Proof. intros [|o] [|o'] l Hl Ho; unfold coef; try lia; nia. Qed.
+
+Lemma score_lower_strict : forall (rs : list region) ord i f, length ord = length rs -> i < length rs ->
+    f < nth i ord 0 -> (0 < rlen (nth i rs ((0, 0, 0)%nat : region)))%Z -> (score rs ord < score rs (set_nth ord i f))%Z.
+Proof.
+  induction rs as [|r rs IH]; intros ord i f Hlen Hi Hf Hl; [cbn in Hi; lia|].
+  destruct ord as [|o ord]; [discriminate|]. rewrite !score_as_sum.
+  destruct i as [|i]; cbn [set_nth combine map zsum fst snd nth] in *.
+  - pose proof (coef_strict o f (rlen r) Hl Hf). lia.
+  - assert (H : (score rs ord < score rs (set_nth ord i f))%Z) by (apply IH; cbn [length] in *; try lia; assumption).
+    rewrite !score_as_sum in H. lia.
+Qed.
+
+Section Consequences.
+  Variable rs : list region.
+  Let n := length rs.
+  Let adj := adj_db rs.
+  Variable x : point.
+  Hypothesis Hcontract : solver_contract rs x.
+  Let ord := readback rs x.
+
+  (* never worse than first-come-first-served *)
+  Theorem ge_fcfs : forall ordf, fcfs_orders rs = Ok ordf -> (score rs ordf <= score rs ord)%Z.
+  Proof.
+    intros ordf H. destruct (fcfs_orders_proper rs ordf H) as [Hp _].
+    destruct (optimal_among_all rs x Hcontract) as [_ Hopt].
+    apply Hopt; [apply Hp|]. apply properP_proper; [apply Hp|exact Hp].
+  Qed.
+
+  (* no stem could be moved to a lower level that is free among its crossing stems *)
+  Theorem stable : (forall r, In r rs -> (0 < rlen r)%Z) ->
+      forall i f, i < n -> f < nth i ord 0 -> ~ (forall j, j < n -> adj i j = true -> nth j ord 0 <> f).
+  Proof.
+    intros Hlen i f Hi Hf Hfree.
+    destruct (optimal_among_all rs x Hcontract) as [Hp Hopt].
+    assert (Hl : length ord = n) by apply readback_length.
+    assert (Hp' : properP adj n (set_nth ord i f)).
+    { intros a b Ha Hb Hadj. unfold level. rewrite !nth_set_nth. fold n in Hl. rewrite Hl.
+      replace (i <? n) with true by (symmetry; apply Nat.ltb_lt; exact Hi).
+      destruct (Nat.eqb_spec a i) as [->|Hai], (Nat.eqb_spec b i) as [->|Hbi]; cbn [andb].
+      - unfold adj in Hadj. rewrite adj_db_irrefl in Hadj. discriminate.
+      - intros E. apply (Hfree b Hb Hadj). symmetry. exact E.
+      - unfold adj in Hadj. rewrite adj_db_sym in Hadj. apply (Hfree a Ha Hadj).
+      - apply (Hp a b Ha Hb Hadj). }
+    specialize (Hopt (set_nth ord i f) ltac:(rewrite length_set_nth; exact Hl) Hp').
+    assert (Hr : (0 < rlen (nth i rs ((0, 0, 0)%nat : region)))%Z) by (apply Hlen; apply nth_In; exact Hi).
+    pose proof (score_lower_strict rs ord i f Hl Hi Hf Hr) as Hs. unfold ord in *. lia.
+  Qed.
+End Consequences.
